@@ -65,7 +65,7 @@ class Unit:
 
     def function(self, src, rel, sig_regex, *, new_header=None, rules=None, ret_zero=None,
                  loops=None, nloops=None, generic=True, witness='', classmap=None, emit=True,
-                 body_prefix='', must_loops=True):
+                 body_prefix='', must_loops=True, scope=None):
         """Extract one function definition.
         new_header: C header to emit instead of the C++ one (name mangling, self parameter,
                     references as pointers).  None: reuse the C++ header after generic rewrites.
@@ -73,7 +73,15 @@ class Unit:
         loops/nloops: loop-contract injection (ordinal -> text), nloops must equal the number of
                     loops found (checked even if no contract is injected when must_loops)."""
         text = src.text(rel)
-        header, body, s, e = lex.find_def(text, sig_regex, 'function')
+        base = 0
+        if scope is not None:
+            _, sbody, ss, se = lex.find_def(text, scope, 'scope')
+            base = text.index(sbody, ss)
+            text_in = sbody
+        else:
+            text_in = text
+        header, body, s, e = lex.find_def(text_in, sig_regex, 'function')
+        s += base
         where = '%s:%s' % (rel, sig_regex)
         if nloops is None and must_loops:
             nloops = 0 if not loops else None
